@@ -5,6 +5,7 @@ import DosModel.Model.Query
 import DosModel.Proofs.Collector
 import DosModel.Proofs.Content
 import Mathlib.Data.List.Perm.Subperm
+import Mathlib.Data.List.Nodup
 
 namespace Dos.Query
 open Dos
@@ -514,5 +515,54 @@ theorem delivered_origin (es : List Collector.Ev) (h : Nat) (s : Collector.Share
   have := hsub.subset hmem
   simp only [Collector.init, List.nil_append] at this
   exact (mem_arrivalsFor es this).1
+
+/-! ### the group seen from outside (liveness at group level, Review A #4) -/
+
+/-- one request at a whole group: `honest` members run `handleQuery`, the others are Byzantine (silent
+or arbitrary); what reaches each honest member's stage is `fcOf` – up to the network and the adversary. -/
+structure GroupRun where
+  C : Crypto
+  p : Nat
+  a : Nat
+  ids : List Bytes
+  r : Request
+  signOf : Nat → Bytes → Bytes
+  honest : List Nat
+  fcOf : Nat → List (Option Msg)
+
+def GroupRun.member (g : GroupRun) (i : Nat) : Member :=
+  { ids := g.ids, me := g.ids.getD i [], signOwn := g.signOf i }
+
+def GroupRun.out (g : GroupRun) (i : Nat) : NodeOut :=
+  handleQuery g.C g.p g.a (g.member i) g.r (g.fcOf i)
+
+/-- the premise of the property's liveness clause: at least a threshold of members are honest, hold
+valid key shares (distinct signatures), every member can compute the request's content, the C02/C03
+contracts hold, and every honest member CAN REACH THE SELECTED SUBMITTER: if that member is honest,
+whatever an honest member sends to it is among the messages that reach its stage. -/
+structure LivePremise (Valid : Nat → Bytes → Bytes → Prop) (g : GroupRun) : Prop where
+  nodup : g.honest.Nodup
+  inGroup : ∀ i ∈ g.honest, i < g.ids.length
+  enough : Content.threshold g.ids.length ≤ g.honest.length
+  idsNodup : g.ids.Nodup
+  idsLen : ∀ id ∈ g.ids, id.length = g.a
+  hrec : ∀ c l, Enough Valid c (Content.threshold g.ids.length) l →
+    ∃ sig, g.C.recover c l = .ok sig ∧ g.C.verify c sig = true
+  htot : ∀ c l, g.C.recover c l ≠ .panic
+  content : ∀ addr, (contentFor g.p g.r addr).isSome = true
+  valid : ∀ i ∈ g.honest, ∀ c, Valid i c (g.signOf i c)
+  distinct : ∀ i ∈ g.honest, ∀ j ∈ g.honest, ∀ c, g.signOf i c = g.signOf j c → i = j
+  reach : ∀ s, Content.submitterIdx g.r.last g.ids.length = some s → s ∈ g.honest →
+    ∀ j ∈ g.honest, j ≠ s → ∀ m, (g.out j).sent = [(g.ids.getD s [], some m)] → some m ∈ g.fcOf s
+
+/-- the group of three of Props/C01.lean with member 1 – the selected submitter for
+`lastRand = 7` – SILENT: members 0 and 2 are honest (t = 2), hold valid shares, reach everybody; the
+crypto is the most permissive one (everything recovers and verifies), so every contract holds. -/
+def silentSub : GroupRun :=
+  { C := { recover := fun _ _ => .ok [1], verify := fun _ _ => true }, p := 32, a := 20,
+    ids := [List.replicate 20 0xA1, List.replicate 20 0xB2, List.replicate 20 0xC3],
+    r := { kind := .sys, rid := 7, last := 7, seed := 0, parsed := none },
+    signOf := fun i _ => [UInt8.ofNat i], honest := [0, 2], fcOf := fun _ => [] }
+
 
 end Dos.Query
